@@ -623,9 +623,12 @@ def r4_restorable(ctx, mod):
 
 
 def r5_tracers(ctx, sym):
-    ctx.rule('R5', "every tracer in TRACER_STYLES whose __enter__ calls sys.settrace saves sys.gettrace() into an "
-                   "attribute first and its __exit__ calls sys.settrace(<that attribute>) on every path; execution "
-                   "sites use the tracer only through `with`")
+    ctx.rule('R5', "every tracer in TRACER_STYLES that installs a trace function (sys.settrace, or a coverage.Coverage "
+                   "object - modelled as coverage's collector stack, with unittest.mock's patch of its source reader) "
+                   "is entered/exited abstractly in the sequences EX, EEXX, EEEXXX, EXEX, EY, EEYX: afterwards "
+                   "sys.gettrace() and coverage's source reader are what they were before, and the outer execution is "
+                   "still traced while only the inner one has ended; execution sites use the tracer only through "
+                   "`with`")
     tmod = ctx.repo.module(TRACER)
     table = literal(tmod.top_assign('TRACER_STYLES'), resolve_consts=False)
     ctx.floor('R5', 'tracer styles', len(table), 4)
@@ -641,13 +644,8 @@ def r5_tracers(ctx, sym):
         efn, xfn = enter[1], exit_[1]
         ctx.analysed_function(enter[0].module, efn)
         ctx.analysed_function(exit_[0].module, xfn)
-        sets = [c for c in calls(efn) if call_name(c) == 'sys.settrace']
-        if not sets:
-            # a tracer that never installs a trace function itself (none / coverage): its __exit__ must not set one
-            xs = [c for c in calls(xfn) if call_name(c) == 'sys.settrace']
-            ctx.check(not xs, 'R5', key, tmod, xfn,
-                      "__exit__ sets a trace function that __enter__ never saved", "trace function clobbered")
-            continue
+        sets = [c for c in calls(efn) if call_name(c) == 'sys.settrace'] or \
+            [c for c in calls(efn) if (call_name(c) or '').startswith('coverage.')]
         # __enter__/__exit__ executed abstractly against a model of sys.gettrace/sys.settrace, entered once and
         # entered again while active (student code importing another submission file re-enters the same tracer)
         from .. import symexec
@@ -656,15 +654,60 @@ def r5_tracers(ctx, sym):
                               ('sequential', 'EXEX'), ('left-by-an-exception', 'EY'),
                               ('re-entered-inner-left-by-an-exception', 'EEYX')):
             original = symexec.marker('the-trace-function-installed-before')
-            cell = {'trace': original}
-            me = symexec.self_obj(tmod, str(cls_name))
+            original_reader = symexec.marker('coverage.python.get_python_source')
+            cell = {'trace': original, 'reader': original_reader}
+            collectors = []
+
+            # a model of the coverage package: started Coverage objects form a stack; stop() uninstalls the object's
+            # tracer and resumes the one below (or leaves no trace function); stopping twice is a no-op
+            def new_coverage(*a, **k):
+                cov = Obj('Coverage')
+
+                def start():
+                    collectors.append(cov)
+                    cell['trace'] = cov
+
+                def stop():
+                    if cov in collectors:
+                        collectors.remove(cov)
+                        cell['trace'] = collectors[-1] if collectors else None
+                symexec.method(cov, 'start', start)
+                symexec.method(cov, 'stop', stop)
+                symexec.method(cov, 'save', lambda *a, **k: None)
+                numbers = Obj('numbers', n_missing=0, n_statements=1, pc_covered=100.0)
+                symexec.method(cov, '_analyze', lambda *a, **k: Obj('analysis', numbers=numbers, missing=set(),
+                                                                    statements=set()))
+                return cov
+
+            # ... and of unittest.mock.patch on coverage's source reader
+            def new_patch(target=None, new=None, *a, **k):
+                pt = Obj('patch', target=target)
+                state = {}
+
+                def p_start():
+                    state['saved'] = cell['reader']
+                    cell['reader'] = new
+
+                def p_stop():
+                    if 'saved' in state:
+                        cell['reader'] = state.pop('saved')
+                symexec.method(pt, 'start', p_start)
+                symexec.method(pt, 'stop', p_stop)
+                return pt
+            me = symexec.self_obj(tmod, str(cls_name), filename='answer.py', code='x = 1')
             symexec.method(me, 'reset', lambda *a, **k: None)
             sup = Obj('super')
             symexec.method(sup, '__init__', lambda *a, **k: None)
             fd = symexec.new_fd(sym, tmod, calls={
                 'sys.gettrace': lambda: cell['trace'],
                 'sys.settrace': lambda f: cell.__setitem__('trace', f),
-                'super': lambda *a: sup, 'isinstance': lambda o, t: False}, extra={'BdbQuit': 'BdbQuit'})
+                'coverage.Coverage': new_coverage, 'patch': new_patch,
+                'sys._getframe': lambda *a: Obj('frame', f_trace=None, __open__=True),
+                'super': lambda *a: sup, 'isinstance': lambda o, t: False},
+                extra={'BdbQuit': 'BdbQuit', 'coverage.python.get_python_source': original_reader,
+                       'coverage': Obj('coverage-module', __open__=True)})
+            fd.resolver = (lambda inner: (lambda n: cell['reader'] if n == 'coverage.python.get_python_source'
+                                          else inner(n)))(fd.resolver)
             init = sym.method(ci, '__init__')
             try:
                 if init is not None:
@@ -682,7 +725,9 @@ def r5_tracers(ctx, sym):
                         depth -= 1
                         if depth > 0 and sets and cell['trace'] is original:
                             inside_ok = False   # the outer execution is still running: it must still be traced
-                restored = cell['trace'] is original
+                restored = cell['trace'] is original and cell['reader'] is original_reader
+                if cell['trace'] is original and cell['reader'] is not original_reader:
+                    cell['trace'] = 'restored, but coverage.python.get_python_source is still patched'
             except _Raised as e:
                 restored, inside_ok = False, True
                 cell['trace'] = 'raises %s' % e.kind
